@@ -207,16 +207,52 @@ ROLE_TAG = {
 # order in which the md schema wants role descriptors does not matter (a choice group); we keep the case's order
 
 
+# optional children / attributes of KeyDescriptor, KeyInfo and X509Data that publish no key; the model ignores them
+EXTRAS = {
+    "keyname": ("ki", "<ds:KeyName>key-1</ds:KeyName>"),
+    "keyname-empty": ("ki", "<ds:KeyName/>"),
+    "keyname-twice": ("ki", "<ds:KeyName>key-1</ds:KeyName><ds:KeyName/>"),
+    "keyvalue": ("ki", "<ds:KeyValue><ds:RSAKeyValue><ds:Modulus>AQAB</ds:Modulus><ds:Exponent>AQAB</ds:Exponent>"
+                       "</ds:RSAKeyValue></ds:KeyValue>"),
+    "keyinfo-id": ("kiattr", ' Id="key-info-1"'),
+    "subjectname": ("x509pre", "<ds:X509SubjectName>CN=subject</ds:X509SubjectName>"),
+    "subjectname-empty": ("x509pre", "<ds:X509SubjectName/>"),
+    "issuerserial": ("x509pre", "<ds:X509IssuerSerial><ds:X509IssuerName>CN=issuer</ds:X509IssuerName>"
+                                "<ds:X509SerialNumber>1</ds:X509SerialNumber></ds:X509IssuerSerial>"),
+    "ski": ("x509pre", "<ds:X509SKI>AQAB</ds:X509SKI>"),
+    "crl": ("x509post", "<ds:X509CRL>AQAB</ds:X509CRL>"),
+    "encmethod": ("kd", '<md:EncryptionMethod Algorithm="http://www.w3.org/2001/04/xmlenc#aes128-cbc"/>'
+                        '<md:EncryptionMethod Algorithm="http://www.w3.org/2001/04/xmlenc#rsa-oaep-mgf1p">'
+                        '<xenc:KeySize xmlns:xenc="http://www.w3.org/2001/04/xmlenc#">128</xenc:KeySize></md:EncryptionMethod>'),
+}
+# `use` values: "" is dropped by the parser (= absent); any other text is not in the schema's enumeration and makes
+# mdstore refuse the whole metadata DOCUMENT (every issuer of the source becomes unknown) — the driver applies the
+# same two rules
+VALID_USE = (None, "", "signing", "encryption")
+
+
 def _keydescriptor(kd):
-    use = ' use="%s"' % kd["use"] if kd.get("use") else ""
+    use = ' use="%s"' % S.xesc(kd["use"]) if kd.get("use") is not None else ""
+    ex = {}
+    for name in kd.get("extras", []):
+        where, xml = EXTRAS[name]
+        ex[where] = ex.get(where, "") + xml
+
+    def x509data(c):
+        # a None entry: an X509Data that carries no certificate; "": an EMPTY X509Certificate element;
+        # a list: SEVERAL X509Certificate elements in one X509Data (pysaml2 keeps the last)
+        if c is None:
+            return "<ds:X509Data><ds:X509SubjectName>CN=no-certificate</ds:X509SubjectName></ds:X509Data>"
+        cs = c if isinstance(c, list) else [c]
+        return "<ds:X509Data>%s%s%s</ds:X509Data>" % (ex.get("x509pre", ""), "".join(
+            "<ds:X509Certificate>%s</ds:X509Certificate>" % (cert_text(x) if x else "") for x in cs), ex.get("x509post", ""))
+
     if not kd.get("certs"):  # None or []: a KeyInfo without any X509Data
-        inner = "<ds:KeyName>key-without-certificate</ds:KeyName>"
-    else:  # a None entry: an X509Data that carries no certificate; "": an EMPTY X509Certificate element
-        inner = "".join("<ds:X509Data><ds:X509Certificate>%s</ds:X509Certificate></ds:X509Data>" % (cert_text(c) if c else "")
-                        if c is not None else
-                        "<ds:X509Data><ds:X509SubjectName>CN=no-certificate</ds:X509SubjectName></ds:X509Data>"
-                        for c in kd["certs"])
-    return "<md:KeyDescriptor%s><ds:KeyInfo>%s</ds:KeyInfo></md:KeyDescriptor>" % (use, inner)
+        inner = "" if "ki" in ex else "<ds:KeyName>key-without-certificate</ds:KeyName>"
+    else:
+        inner = "".join(x509data(c) for c in kd["certs"])
+    return "<md:KeyDescriptor%s><ds:KeyInfo%s>%s%s</ds:KeyInfo>%s</md:KeyDescriptor>" % (
+        use, ex.get("kiattr", ""), ex.get("ki", ""), inner, ex.get("kd", ""))
 
 
 def md_xml(md):
@@ -278,7 +314,7 @@ def mk(kind, md, only, issuer, signer, ki, first=None, **cfg):
         c["must_form"] = cfg.pop("must_form", True)
     c.update(cfg)
     kinds = {n: CERT_KINDS[n] for e in md["entities"] for r in e["roles"] for k in r["keys"]
-             for n in (k["certs"] or []) if n and n in CERT_KINDS}
+             for c in (k["certs"] or []) for n in (c if isinstance(c, list) else [c]) if n and n in CERT_KINDS}
     if kinds:
         c["cert_kinds"] = kinds
     if kind in NESTED:
@@ -319,7 +355,14 @@ def gen_role(rng, kinds):
             cs = [rng.choice(pool) for _ in range(rng.choice([1, 1, 1, 2]))]
             if rng.random() < 0.06:
                 cs.insert(rng.randrange(len(cs) + 1), rng.choice([None, ""]))
-            keys.append({"use": use, "certs": cs})
+            if rng.random() < 0.06:
+                cs[0] = [rng.choice(KEYS[:4]), cs[0]] if cs[0] else cs[0]
+            k = {"use": use, "certs": cs}
+            if rng.random() < 0.25:
+                k["extras"] = rng.sample(sorted(EXTRAS), rng.choice([1, 1, 2, 3]))
+            if rng.random() < 0.04:
+                k["use"] = rng.choice(["", "", "bogus", "Signing"])
+            keys.append(k)
     return {"kind": rng.choice(kinds), "keys": keys}
 
 
@@ -347,8 +390,9 @@ def random_cases(rng, n_md, per):
             md = gen_md(rng, role)
             if rng.random() < 0.7:
                 md = with_member(md, kind)
-        published = sorted({c for e in md["entities"] for r in e["roles"] for k in r["keys"]
-                            for c in (k["certs"] or []) if c and c not in CERT_KINDS})
+        published = sorted({n for e in md["entities"] for r in e["roles"] for k in r["keys"]
+                            for c in (k["certs"] or []) for n in (c if isinstance(c, list) else [c])
+                            if n and n not in CERT_KINDS})
         e_id, m_id, u_id = ids_for(kind)
         for _ in range(per):
             c = rng.randrange(10)
@@ -518,6 +562,50 @@ def form_cases(kind, quick):
                 yield mk(kind, md, f, iss, signer, ki, **cls)
 
 
+def optional_children_cases(kind, quick):
+    """every optional child / attribute of KeyDescriptor, KeyInfo, X509Data as present / empty / repeated, several
+    certificates in one X509Data, several X509Data, `use` absent / "" / signing / encryption / other text: the
+    issuer publishes a signing certificate, so only that key validates — whatever else the descriptor carries"""
+    role = role_for(kind)
+    e_id, m_id, u_id = ids_for(kind)
+    kds = [dict(kd("signing", "idp_sign"), extras=[x]) for x in EXTRAS]
+    kds.append(dict(kd("signing", "idp_sign"), extras=sorted(EXTRAS)))
+    kds += [{"use": "signing", "certs": [["idp_sign2", "idp_sign"]]}, {"use": "signing", "certs": [["idp_sign", "attacker"], "idp_sign"]},
+            {"use": "", "certs": ["idp_sign"]}, {"use": "bogus", "certs": ["idp_sign"]}, {"use": "Signing", "certs": ["idp_sign"]}]
+    for k in kds:
+        for keys in ([k], [dict(kd("encryption", "idp_enc"), extras=k.get("extras", [])), k]):
+            md = with_member({"configured": True, "entities": [{"id": e_id, "roles": [{"kind": role, "keys": keys}]}]}, kind)
+            yield mk(kind, md, False, e_id, "attacker", {"certs": ["attacker"], "rsa": None})
+            yield mk(kind, md, True, e_id, "idp_sign", NO_KI)
+            if not quick:
+                yield mk(kind, md, False, e_id, "idp_sign2", {"certs": ["idp_sign2"], "rsa": None})
+                yield mk(kind, md, None, e_id, OWN, {"certs": [OWN], "rsa": None})
+
+
+SIGALGS = ["sha1", "sha224", "sha256", "sha384", "sha512",                       # the five the library implements
+           "rsa-md5", "ecdsa-sha256", "dsa-sha1", "", "absent", "unknown", "upper", "padded"]
+SIGFORMS = ["genuine", "random", "empty", "absent"]
+
+
+def detached_param_cases(kind, quick):
+    """SigAlg x Signature forms of the Redirect binding: a request whose signature was verified under NO key must
+    never count as signed"""
+    md = fixed_md(role_for(kind))
+    e_id, m_id, u_id = ids_for(kind)
+    ec = {"configured": True, "entities": [{"id": e_id, "roles": [{"kind": role_for(kind), "keys": [kd("signing", "garbage", "c15_ec256", "idp_sign")]}]}]}
+    for alg in SIGALGS:
+        for form in SIGFORMS:
+            for signer in ("idp_sign", "attacker", OWN):
+                if quick and signer == OWN and form != "genuine":
+                    continue
+                yield mk(kind, md, True, e_id, signer, NO_KI, sigalg=alg, sigform=form)
+            yield mk(kind, ec, True, e_id, "idp_sign", NO_KI, sigalg=alg, sigform=form)
+            if form == "genuine":   # with an additional enveloped signature (model: one signer for both signatures)
+                yield mk(kind, md, False, e_id, "idp_sign", {"certs": ["idp_sign"], "rsa": None}, sigalg=alg, sigform=form)
+            if form in ("genuine", "random"):
+                yield mk(kind, md, True, u_id, "attacker", NO_KI, sigalg=alg, sigform=form)
+
+
 def gen_cases(rng, tier):
     quick = tier == "quick"
     # 1. the quantifier's product, completely (both tiers), for every kind
@@ -547,7 +635,15 @@ def gen_cases(rng, tier):
     for kind in KINDS:
         for c in form_cases(kind, quick):
             yield c
-    # 8. random metadata shapes
+    # 8. optional children / attributes of the key descriptors
+    for kind in KINDS:
+        for c in optional_children_cases(kind, quick):
+            yield c
+    # 9. parameter forms of the detached signature
+    for kind in DETACHED:
+        for c in detached_param_cases(kind, quick):
+            yield c
+    # 10. random metadata shapes
     n_md, per = (40, 12) if quick else (400, 20)
     for c in random_cases(rng, n_md, per):
         yield c
@@ -835,13 +931,34 @@ def build_message(case):
     else:
         xml = str(msg)
     enc = base64.b64encode(zlib.compress(xml.encode("utf-8"))[2:-4]).decode()
-    args = {"SAMLRequest": enc, "RelayState": "rs-1", "SigAlg": SIG_RSA_SHA256}
-    octets = "&".join(urllib.parse.urlencode({k: args[k]}) for k in ("SAMLRequest", "RelayState", "SigAlg")).encode("ascii")
-    key = serialization.load_pem_private_key(open(S.key_path(signer or "attacker"), "rb").read(), None)
-    sig = key.sign(octets, padding.PKCS1v15(), hashes.SHA256())
-    if signer is None:
-        sig = bytes([sig[0] ^ 0x55]) + sig[1:]
-    return {"xml": enc, "relay_state": "rs-1", "sigalg": SIG_RSA_SHA256, "signature": base64.b64encode(sig).decode()}
+    alg = case.get("sigalg", "sha256")
+    form = case.get("sigform", "genuine")
+    sha256 = "http://www.w3.org/2001/04/xmldsig-more#rsa-sha256"
+    uri = {"sha1": "http://www.w3.org/2000/09/xmldsig#rsa-sha1", "sha224": "http://www.w3.org/2001/04/xmldsig-more#rsa-sha224",
+           "sha256": sha256, "sha384": "http://www.w3.org/2001/04/xmldsig-more#rsa-sha384",
+           "sha512": "http://www.w3.org/2001/04/xmldsig-more#rsa-sha512",
+           "rsa-md5": "http://www.w3.org/2001/04/xmldsig-more#rsa-md5", "ecdsa-sha256": "http://www.w3.org/2001/04/xmldsig-more#ecdsa-sha256",
+           "dsa-sha1": "http://www.w3.org/2000/09/xmldsig#dsa-sha1", "": "", "absent": None, "unknown": "urn:example:no-such-algorithm",
+           "upper": sha256.upper(), "padded": sha256 + " "}[alg]
+    h = {"sha1": hashes.SHA1, "sha224": hashes.SHA224, "sha384": hashes.SHA384, "sha512": hashes.SHA512}.get(alg, hashes.SHA256)
+    args = {"SAMLRequest": enc, "RelayState": "rs-1"}
+    if uri is not None:
+        args["SigAlg"] = uri
+    octets = "&".join(urllib.parse.urlencode({k: args[k]}) for k in ("SAMLRequest", "RelayState", "SigAlg") if k in args).encode("ascii")
+    if form == "genuine":
+        # a genuine RSA PKCS#1 v1.5 signature by `signer` (with the hash the algorithm names, SHA-256 for the
+        # algorithms the library does not implement)
+        key = serialization.load_pem_private_key(open(S.key_path(signer or "attacker"), "rb").read(), None)
+        sig = key.sign(octets, padding.PKCS1v15(), h())
+        if signer is None:
+            sig = bytes([sig[0] ^ 0x55]) + sig[1:]
+        sig = base64.b64encode(sig).decode()
+    elif form == "random":
+        import hashlib
+        sig = base64.b64encode(b"".join(hashlib.sha256(octets + bytes([i])).digest() for i in range(8))).decode()
+    else:
+        sig = "" if form == "empty" else None
+    return {"xml": enc, "relay_state": "rs-1", "sigalg": uri, "signature": sig}
 
 
 # ------------------------------------------------------------------ implementation side
